@@ -304,3 +304,26 @@ Example ex_shape :
   /\ shape_ok (bs "http:") (bs "intranet") = false /\ shape_ok (bs "http:") (bs "[::1]") = false
   /\ shape_ok (bs "http:") (bs "localhost.") = true /\ shape_ok (bs "http:") (bs "127.0.0.2") = true.
 Proof. vm_compute. repeat split; reflexivity. Qed.
+
+(* letter case.  The substring test is byte-exact (contains_spec) and gen_cfg keeps the operator's
+   entries as typed (gen_cfg_other_lemma, gen_cfg_exact_lemma), so: *)
+Lemma string_filters_case_sensitive_lemma :
+  let ex := gen_cfg (OC [] [] [] [bs "/Private/"; bs "sessionID="]) in
+  let inc := gen_cfg (OC [] [bs "/Docs/"] [] []) in
+  let h := bs "www.example.com" in
+  in_scope ex h (bs "https://www.example.com/Private/report.pdf") [] = false
+  /\ in_scope ex h (bs "https://www.example.com/private/report.pdf") [] = true
+  /\ in_scope ex h (bs "https://www.example.com/login?sessionID=abc123") [] = false
+  /\ in_scope ex h (bs "https://www.example.com/login?sessionid=abc123") [] = true
+  /\ in_scope inc h (bs "https://www.example.com/Docs/a.css") [] = true
+  /\ in_scope inc h (bs "https://www.example.com/docs/old.css") [] = false.
+Proof. vm_compute. repeat split; reflexivity. Qed.
+
+(* the host filters are byte-exact too; the host they are compared with is ada's, always
+   lower-case, so an entry with an upper-case letter matches nothing (what the code does today:
+   --exclude-host Example.COM excludes nothing, --include-host Example.com admits nothing) *)
+Lemma host_filters_upper_case_lemma :
+  in_scope (gen_cfg (OC [] [] [bs "Example.COM"] [])) (bs "www.example.com") (bs "http://www.example.com/") [] = true
+  /\ in_scope (gen_cfg (OC [] [] [bs "example.com"] [])) (bs "www.example.com") (bs "http://www.example.com/") [] = false
+  /\ in_scope (gen_cfg (OC [bs "Example.com"] [] [] [])) (bs "www.example.com") (bs "http://www.example.com/") [] = false.
+Proof. vm_compute. repeat split; reflexivity. Qed.
